@@ -20,15 +20,30 @@ def _steps(job):
     svg, drop = job
     from picosvg import _verif
     from picosvg.svg import SVG
-    ev = []
-    _verif.install(lambda n, f: ev.append(f["name"]) if n == "step" else None)
+    from .pipeline_obs import residues
+    ev, res, res0 = [], [], []
+
+    def sink(n, f):
+        if n != "step":
+            return
+        try:
+            r = residues(f["svg"], 3)
+        except Exception as e:  # noqa
+            r = ["observer-failed:" + type(e).__name__]
+        if f["name"] == "begin":
+            res0.extend(r)
+        else:
+            ev.append(f["name"])
+            res.append(r)
+
+    _verif.install(sink)
     try:
         SVG.fromstring(svg).topicosvg(drop_unsupported=bool(drop))
     except Exception:  # noqa
         pass
     finally:
         _verif.install(None)
-    return {"drop": drop, "ev": ev}
+    return {"drop": drop, "ev": ev, "res": res, "res0": res0}
 
 
 def pipeline_binding(out, srcs, tier):
@@ -46,12 +61,13 @@ def pipeline_binding(out, srcs, tier):
         out.coverage["transitions"] += tr
         hist = {}
         for v in verdicts:
-            k = v if v.startswith("ok") else "drift"
+            k = v
             hist[k] = hist.get(k, 0) + 1
         out.coverage["parts"]["pipeline_step_order"] = hist
         out.coverage["parts"]["pipeline_drift_examples"] = sorted({v for v in verdicts if v.startswith("drift")})[:3]
-        out.coverage["drift"] += hist.get("drift", 0)
-        if hist.get("drift"):
+        ndrift = sum(n_ for k, n_ in hist.items() if k.startswith("drift"))
+        out.coverage["drift"] += ndrift
+        if ndrift:
             print("MODEL-DRIFT C07: the recorded topicosvg step order is not a run of Pipeline.tla: %s"
                   % out.coverage["parts"]["pipeline_drift_examples"][:1])
     finally:
